@@ -95,6 +95,14 @@ def gen_case(rng, supervised):
     X = X * sc
     pairs = pairs * sc
     alpha = 0.01
+  if prior_kind == 'array' and not supervised and region in ('pd', 'not_pd') and rng.random() < 0.3:
+    # an SPD array prior that is well conditioned but TINY in absolute terms (2^-60), with features of magnitude 2^30 (the
+    # inverse covariance of data in large raw units): nothing about the problem changes but its units
+    region = 'pd'
+    prior = prior * 2.0 ** -60
+    prior_arg = gen.layout(rng, prior)
+    X = X * 2.0 ** 30
+    pairs = pairs * 2.0 ** 30
   if region == 'mostly_dissimilar' and not supervised:
     # every direction dominated by dissimilar pairs (an input matrix with several negative eigenvalues)
     lab = np.where(rng.random(len(lab)) < 0.2, 1, -1)
